@@ -2,7 +2,7 @@
 from ..lib import mach, machgen
 
 RULE = ("histories of 1-5 computations on one thread, each a generated program with arbitrary fault sets (task steps, items, "
-        "flushes, lazy futures, context pause()/resume() raising on the k-th scheduler-driven call), nested synchronous "
+        "flushes, lazy futures, context pause()/resume() raising on the k-th scheduler-driven call, pause() faults that persist on every later call), nested synchronous "
         "re-entry, small MAX_TASK_STACK_SIZE values to reach the runaway guard; distinct = different AST+params; "
         "non-trivial = history of >= 2 computations with >= 1 fault site")
 TRUSTED = ["Python/Gallina emitters of harness/lib/machprog.py"]
@@ -158,13 +158,48 @@ _NESTED_NOTHING_TO_FLUSH = {
         [{"op": "probe"}, {"op": "return", "e": 2}]],
     "params": {"kinds": {}},
 }
+# a context whose pause() fails PERSISTENTLY (a "no suspension while dirty" context: once pause() has raised it raises on every
+# later call too, also on the one a with block's __exit__ would make while the killed task's generator is closed): the task is
+# suspended on a batch item inside the block.  First under a parent (outermost error), then under a parent that catches the error
+# and goes on, then with the failure at the SECOND suspension and a second open context; after each, a computation that must run
+# as on a fresh scheduler (no task, no batch of the dead one)
+def _sticky(cid, k, e):
+    return {"async": [cid, {"pause": [k, e], "sticky": True}]}
+
+
+_PAUSE_FAILS_PERSISTENTLY = {
+    "roots": [
+        [{"op": "yield", "x": "x1", "s": {"new": {"task": [
+            {"op": "with", "c": _sticky(1, 1, 41), "body": [{"op": "yield", "x": "a1", "s": {"new": {"item": [0, 1, {"set": 1}]}}}]},
+            {"op": "return", "e": 0}]}}},
+         {"op": "return", "e": {"var": "x1"}}],
+        [{"op": "probe"}, {"op": "yield", "x": "x2", "s": {"new": {"item": [0, 2, {"set": 2}]}}}, {"op": "probe"}, {"op": "return", "e": {"var": "x2"}}],
+        [{"op": "try", "body": [{"op": "yield", "x": "y1", "s": {"tuple": [
+            {"new": {"item": [1, 3, {"set": 3}]}},
+            {"new": {"task": [
+                {"op": "with", "c": _sticky(2, 1, 42), "body": [{"op": "yield", "x": "b1", "s": {"new": {"item": [0, 4, {"set": 4}]}}}]},
+                {"op": "return", "e": 0}]}}]}}],
+          "x": "e1", "handler": [{"op": "probe"}]},
+         {"op": "probe"}, {"op": "return", "e": 1}],
+        [{"op": "with", "c": {"async": [3, None]}, "body": [
+            {"op": "with", "c": _sticky(4, 2, 43), "body": [
+                {"op": "yield", "x": "z1", "s": {"new": {"item": [0, 5, {"set": 5}]}}},
+                {"op": "yield", "x": "z2", "s": {"new": {"item": [1, 6, {"set": 6}]}}}]}]},
+         {"op": "return", "e": 2}],
+        [{"op": "probe"}, {"op": "yield", "x": "w1", "s": {"new": {"item": [1, 7, {"set": 7}]}}}, {"op": "return", "e": {"var": "w1"}}]],
+    "params": {"kinds": {}},
+}
 _EXTRA = [(2, dict(_base, name="ctx-faults", p_ctx_fault=0.8, p_with=0.45, p_item=0.6, p_probe=0.25, p_nonasync=0.1)),
           (1, dict(_base, name="cancel-self", p_flush_raise=0.8, p_via_cancel=0.8, p_item=0.65, nkinds=3)),
           (1, dict(_base, name="base-errors", p_base_err=1.0, p_flush_raise=0.5, p_item=0.6)),
           (1, dict(_base, name="flush-probes", p_flush_ctx=0.9, p_item=0.6, p_probe=0.2, p_sync=0.25, nkinds=2, p_flush_raise=0.25)),
           (1, dict(_base, name="returns-future", p_ret_fut=0.35, p_let=0.2, p_sync=0.25, p_probe=0.25, p_ctx_fault=0.0))]
+# drawn after _EXTRA's stream (a separate extra_profiles call: adding it shifts no earlier case)
+_EXTRA2 = [(1, dict(_base, name="pause-fails-persistently", p_ctx_fault=0.85, p_sticky=0.8, p_with=0.45, p_item=0.65, p_probe=0.2,
+                    p_nonasync=0.03, p_override=0.15))]
 
 mach.install(globals(), "C08", ("EvProbe", "EvSched"), ("C08:",), PROFILES, n_quick=300, n_thorough=25000,
              nontrivial=_nontrivial, level="proof",
-             corpus=[_GUARD_BATCH, _GUARD_NESTED, _GUARD_CAUGHT, _STALE_BATCH, _RESUME_FAILS, _CANCEL_SELF, _RETURNS_FUTURE, _CALLEE_RESUME_FAILS, _NESTED_NOTHING_TO_FLUSH],
-             extra_gen=mach.extra_profiles(_EXTRA, 100, 6000))
+             corpus=[_GUARD_BATCH, _GUARD_NESTED, _GUARD_CAUGHT, _STALE_BATCH, _RESUME_FAILS, _CANCEL_SELF, _RETURNS_FUTURE, _CALLEE_RESUME_FAILS, _NESTED_NOTHING_TO_FLUSH,
+                     _PAUSE_FAILS_PERSISTENTLY],
+             extra_gen=mach.extra_all(mach.extra_profiles(_EXTRA, 100, 6000), mach.extra_profiles(_EXTRA2, 40, 2500)))
